@@ -94,6 +94,17 @@ def matrix_programs():
            "\x0c nosuch();", "\r nosuch();", "\x0c\n\x0c break;", "try { end; } catch { end; } end;"]
     for i, st in enumerate(stm):
         out.append({"name": f"matrix/stmt{i}", "src": "hook h;\nout str[4] x;\nparser { \"q\"; " + st + " \"z\"; }\n", "args": []})
+    # ill-formed joins: the diagnostic has to name conflicting symbols - explicit characters next to a wildcard, end-of-input next to characters
+    # (three or more conflicting symbols incl. End on one transition: a join with an `if` whose branches accept bytes and end-of-input)
+    joins = ['/[^x]*/; /[^y]z/;', '/(a|b|[^c])*/; /[^a]/;', '/a*/; /[^y]/;', '/[^x]*/; /[^y]/;',
+             'optional { case { /[ab]/ -> { n = 1; } end -> { n = 2; } } } if n == 1 { /[ab]/; } else { end; }',
+             'optional { case { /[abc]/ -> { n = 1; } end -> { n = 2; } } } if n == 1 { /[abc]/; } else { end; }',
+             'optional { /[abc]/; n = 1; } /[abc]/;', 'optional { "a"; n = 1; } if n == 1 { "b"; } else { end; }',
+             'loop { case { end -> { break; } /[ab]/ -> { } } } if n == 1 { /[ab]/; } else { end; }', 'wait /[^a]b/; /[^b]/;', '/[^a]+/; end;', '/.*/; end;', 'optional { end; } end;']
+    for i, st in enumerate(joins):
+        out.append({"name": f"matrix/join{i}", "src": "out int n = 0;\nparser { " + st + " }\n", "args": ["-feof-support"]})
+        if "end" not in st:
+            out.append({"name": f"matrix/join{i}n", "src": "parser { " + st.replace("n = 1; ", "") + " }\n", "args": []})
     macros = ["macro a(expr e) { n = [e]; }\nmacro b(expr e) { a([e + 1]); }\nout int n;\nparser { \"x\"; b(5); }",
               "macro a(match p) { p; }\nmacro b(match p) { a((p \"!\")); a((\"?\" p)); }\nparser { b(\"x\"); }",
               "macro a() { a(); }\nparser { a(); }", "macro a() { b(); }\nmacro b() { a(); }\nparser { \"x\"; a(); }", "macro a(expr e) { n = [e]; }\nout int n;\nparser { \"x\"; a(e); }",
